@@ -13,17 +13,39 @@ def batch(listfile):
     any_rep = False
     with open(listfile) as f:
         paths = [l.strip() for l in f if l.strip()]
+    # warm the imports once, then replay every case in its own forked child so that no state (caches a defect may
+    # have introduced) leaks from one replay into the next: each case sees a fresh library
+    import htstabilizer.stabilizer_circuits, htstabilizer.tomography  # noqa
     for path in paths:
         with open(path) as f:
             case = json.load(f)
+        r, w = os.pipe()
+        pid = os.fork()
+        if pid == 0:
+            os.close(r)
+            try:
+                mod = importlib.import_module("vlib.props.%s" % case["property"].lower())
+                ok, detail = mod.replay(case)
+                ok = bool(ok)
+            except Exception as e:
+                ok, detail = None, "replay raised %r" % (e,)
+            os.write(w, json.dumps({"path": path, "ok": ok, "detail": str(detail)[:800]}).encode())
+            os._exit(0)
+        os.close(w)
+        data = b""
+        while True:
+            chunk = os.read(r, 65536)
+            if not chunk:
+                break
+            data += chunk
+        os.close(r)
+        os.waitpid(pid, 0)
         try:
-            mod = importlib.import_module("vlib.props.%s" % case["property"].lower())
-            ok, detail = mod.replay(case)
-            ok = bool(ok)
-        except Exception as e:
-            ok, detail = None, "replay raised %r" % (e,)
-        any_rep = any_rep or bool(ok)
-        print("BATCH " + json.dumps({"path": path, "ok": ok, "detail": str(detail)[:800]}), flush=True)
+            rec = json.loads(data.decode())
+        except Exception:
+            rec = {"path": path, "ok": None, "detail": "replay child died"}
+        any_rep = any_rep or bool(rec["ok"])
+        print("BATCH " + json.dumps(rec), flush=True)
     sys.exit(1 if any_rep else 0)
 
 
